@@ -90,6 +90,8 @@ class Coordinator(object):
         self._rejoin_needed = True
         # are we shutting down?
         self._stopping = False
+        # has a subclass begun to shut down ahead of stop()? (no more joins)
+        self._leaving = False
         # delayedcall for a pending rejoin
         self._rejoin_wait_dc = None
         # deferred for a rejoin in progress
@@ -434,6 +436,10 @@ class Coordinator(object):
             log.debug("join_and_sync: rejoin not needed")
             return
 
+        if self._leaving:
+            log.debug("join_and_sync: leaving the group, not rejoining")
+            return
+
         # prevent multiple concurrent request situations
         if self._rejoin_d:
             # XXX: This should throw, not silently ignore.
@@ -459,16 +465,16 @@ class Coordinator(object):
     def _join_and_sync(self):
         self._state = "[fetching_broker]"
         coordinator_broker = yield self.get_coordinator_broker()
-        if not coordinator_broker or self._stopping:
+        if not coordinator_broker or self._stopping or self._leaving:
             return
         self.coordinator_broker = coordinator_broker
 
         self._state = "[joining]"
         yield self.on_join_prepare()
-        if self._stopping:
+        if self._stopping or self._leaving:
             return
         join_response = yield self.send_join_group_request()
-        if not join_response or self._stopping:
+        if not join_response or self._stopping or self._leaving:
             # join failed, we'll be called again after a small delay
             return
 
@@ -491,11 +497,11 @@ class Coordinator(object):
                     topic_partitions=topic_partitions,
                 )
 
-        if self._stopping:
+        if self._stopping or self._leaving:
             return
         self._state = "[syncing]"
         sync_response = yield self.send_sync_group_request(assignments)
-        if not sync_response or self._stopping:
+        if not sync_response or self._stopping or self._leaving:
             # sync failed, we'll be called again after a small delay
             return
 
@@ -726,8 +732,6 @@ class ConsumerGroup(Coordinator):
             consumer_kwargs = {}
         self.consumer_kwargs = consumer_kwargs
         self.consumers = {}
-        # has stop() begun shutting down the consumers?
-        self._leaving = False
 
     def __repr__(self):
         return "<afkak.{} 0x{:x} for {!r} {} member_id={!r}>".format(
@@ -863,12 +867,6 @@ class ConsumerGroup(Coordinator):
             return
 
         self.rejoin_after_error(result, label="consumer_error")
-
-    def join_and_sync(self):
-        if self._leaving:
-            log.debug("%s join_and_sync: leaving the group, not rejoining", self)
-            return
-        return super(ConsumerGroup, self).join_and_sync()
 
     @inlineCallbacks
     def stop(self, errback_result=None):
